@@ -1,0 +1,12 @@
+//go:build verif
+
+package allocator
+
+// VerifOnAddTask, when set by the verification harness, observes every task handed to a miner.
+var VerifOnAddTask func(minerID string, taskID string, job float64)
+
+func verifAddTask(minerID string, taskID string, job float64) {
+	if h := VerifOnAddTask; h != nil {
+		h(minerID, taskID, job)
+	}
+}
